@@ -17,6 +17,7 @@ package props
 //      where Go does not.
 
 import (
+	"os"
 	"fmt"
 	"math"
 	"math/rand"
@@ -657,6 +658,12 @@ func runC10(c *fw.Ctx) {
 	}
 	c10HugeFileProbe(c)
 	c10UpdateJSONKeys(c)
+	// (3) malformed JSON / text at every hand-written UnmarshalJSON / UnmarshalText (sub-check C10J); values that
+	// decode but cannot be encoded or hashed without a panic are flagged (they crash validation)
+	if jf := fw.Lookup("C10J"); jf != nil {
+		os.Setenv("VERIF_C10J_STRICT", "1")
+		jf(c)
+	}
 	if len(ops) > 0 && c.Model != nil {
 		res.ModelUsed = true
 		got, err := c.Model.Eval(ops)
